@@ -77,12 +77,22 @@ if len(sys.argv) > 4 and os.path.exists(sys.argv[4]):
     summary["seeds_judged_equivalent"] = len(re.findall(r"ALL-EQUIVALENT", txt))
     summary["seeds_compared"] = len(re.findall(r"^C\d\d[a-z]\s", txt, re.M))
 # audit
-aud = {}
+try:
+    aud = json.load(open(V + "/selftest/summary.json")).get("audit", {})      # the quick tier writes no audit: keep the last thorough run's
+except Exception:
+    aud = {}
 for f in sorted(glob.glob(V + "/evidence/C*.json")):
     d = json.load(open(f))
     a = d.get("coverage", {}).get("sensitivity_audit")
     if a:
         aud[d["property_id"]] = {k: a.get(k) for k in ("applied", "killed", "kill_ratio", "judged_equivalent", "wall_s")}
-summary["audit"] = aud
+# fallback: the one-line summaries of the last full thorough run
+if os.path.exists(V + "/selftest/thorough_last_run.txt"):
+    for l in open(V + "/selftest/thorough_last_run.txt"):
+        m = re.match(r"^(C\d\d) rc=(\d) (\d+)s\s+sensitivity audit: (\d+) mutants applied, (\d+) killed", l)
+        if m and m.group(1) not in aud:
+            ap, ki = int(m.group(4)), int(m.group(5))
+            aud[m.group(1)] = {"applied": ap, "killed": ki, "kill_ratio": round(ki / max(1, ap), 3), "judged_equivalent": None, "wall_s": int(m.group(3))}
+summary["audit"] = dict(sorted(aud.items()))
 json.dump(summary, open(V + "/selftest/summary.json", "w"), indent=1)
 print(json.dumps({k: v for k, v in summary.items() if k != "audit"}, indent=1))
